@@ -17,7 +17,7 @@ go test -vet=off -count=1 -run 'TestSeedDemo' "$PKG" >/tmp/confirm/$NAME.without
 git apply "$SRC/patch.diff" || { echo "PATCH DOES NOT APPLY"; exit 3; }
 go build ./... >/dev/null 2>&1
 go test -vet=off -count=1 -run 'TestSeedDemo' "$PKG" >/tmp/confirm/$NAME.with.log 2>&1; X=$?
-go test -vet=off -count=1 -skip 'TestSeedDemo' -timeout 25m ./... >/tmp/confirm/$NAME.suite.log 2>&1
+go test -vet=off -count=1 -skip 'TestSeedDemo' -timeout 6m ./... >/tmp/confirm/$NAME.suite.log 2>&1
 # the suite has load-sensitive tests (gateway TestH*ApexIndex, chord TestConcurrent*): a
 # package that failed in the full run is re-run alone, up to twice, before it counts
 for pkg in $(grep -E "^FAIL\s" /tmp/confirm/$NAME.suite.log | grep -v "\[setup failed\]\|\[build failed\]" | awk '{print $2}' | sort -u); do
